@@ -135,6 +135,12 @@ fn base_builder<'a>(c: &Case, acc_t: i64) -> Performance<'a> {
             let v = &c.p;
             match (v.n300 + 3 * v.n100 + 5 * v.miss + 7 * v.combo + c.acc + c.passed + i64::from(c.sh.a)).rem_euclid(3) {
                 0 => p.lazer(true).mods(im),
+                _ if c.mode == "mania" => {
+                    use rosu_mods::generated_mods as gm;
+                    let mut lazer = rosu_mods::GameMods::new();
+                    lazer.insert(rosu_mods::GameMod::ClassicMania(gm::ClassicMania::default()));
+                    p.lazer(true).mods(lazer)
+                }
                 k => {
                     use rosu_mods::generated_mods as gm;
                     let mut lazer = rosu_mods::GameMods::new();
